@@ -210,10 +210,14 @@ field Writer.writer
     ensures[struct_pos] old(self.pos) >= 0 ==> (ret1 == nil ==> ret0 == old(self.pos) && self.pos >= ret0) && self.pos >= 0
     ensures[sync_frame] forall p string :: p != self.Path ==> fsDirty[p] == old(fsDirty[p]) && fsContent[p] == old(fsContent[p])
 
+// number of Write calls per writer (bookkeeping for ordering clauses of callers: "stamped before written")
+ghost var gWrites map[*Writer]int
+
 func (*Writer).Write
     flags noframe
     requires[sync_ok] wrOK(w)
-    assigns fsDirty, fsContent, fData, fSize, Writer.pos, Writer.buff
+    assigns fsDirty, fsContent, fData, fSize, Writer.pos, Writer.buff, gWrites
+    ensures[ghost_count] gWrites[w] == old(gWrites)[w] + 1 && (forall o *Writer :: o != w ==> gWrites[o] == old(gWrites)[o])
     ensures[sync_frame] forall p string :: p != w.Path ==> fsDirty[p] == old(fsDirty[p]) && fsContent[p] == old(fsContent[p])
     // positions handed out are non-negative (the writer position never goes below the file header)
     ensures[struct_pos] old(w.pos) >= 0 ==> (ret1 == nil ==> ret0 >= 0) && w.pos >= 0
